@@ -193,6 +193,40 @@ def type_label_map(tracedir):
     return out
 
 
+_TYPEMAP = {}
+
+
+def calibrate_types(bdir):
+    """gid of the task type labels T0..T15 (the emulator only writes the PCF
+    values of task types when the emulation finishes, so runs that fail are
+    projected with the mapping learnt from a run that succeeds)."""
+    if bdir in _TYPEMAP:
+        return _TYPEMAP[bdir]
+    import shutil
+    from . import emu
+    out = {}
+    for mc, name, ty in (("V", "nosv", 11), ("6", "nanos6", 36)):
+        d = core.mkscratch("cal")
+        try:
+            td = os.path.join(d, "ovni")
+            system = {"threads": [{"tid": 101, "pid": 1001, "app": 1, "loom": 1, "rank": -1}],
+                      "cpus": [{"loom": 1, "idx": 0, "phy": 10, "virt": False},
+                               {"loom": 1, "idx": -1, "phy": -1, "virt": True}], "marks": [], "models": ["O", mc]}
+            evs = [{"th": 1, "m": "OHx", "a": [0, 101, 7]}]
+            evs += [{"th": 1, "m": mc + "Yc", "a": [k + 1, k], "j": True} for k in range(16)]
+            evs += [{"th": 1, "m": "OHe", "a": []}]
+            synth.materialise(td, system, [concretise(e) for e in evs], models=require_for({"O", mc}))
+            r = emu.ovniemu(bdir, td, ("-l",))
+            if not r.accepted:
+                raise core.MachineryError("type calibration run failed: %s" % r.last_errors())
+            for (t, gid), k in type_label_map(td).items():
+                out[(t, gid)] = k
+        finally:
+            shutil.rmtree(d, ignore_errors=True)
+    _TYPEMAP[bdir] = out
+    return out
+
+
 def run_one(bdir, system, events, lint=True, extra_args=(), view_from=0):
     """Returns the execution (list of records for EmuTrace) and the EmuRun."""
     import shutil
@@ -211,7 +245,8 @@ def run_one(bdir, system, events, lint=True, extra_args=(), view_from=0):
         if os.path.exists(os.path.join(td, "thread.prv")) and os.path.exists(os.path.join(td, "thread.row")):
             try:
                 vs, _ = synth.views(td, system, clocks)
-                tl = type_label_map(td)
+                tl = dict(_TYPEMAP.get(bdir, {}))
+                tl.update(type_label_map(td))
                 if tl:
                     for cells in vs:
                         for c in cells:
@@ -243,6 +278,7 @@ def sys_with_rank(system):
 def conformance(ck, bdir, graph, tier, limit_quick=3000, limit_thorough=None, lint=True,
                 label="", extra_histories=None):
     rng = random.Random(core.seed())
+    calibrate_types(bdir)
     system = sys_with_rank(graph.system)
     hs = graph.histories(limit=limit_quick if tier == "quick" else limit_thorough, rng=rng)
     if extra_histories:
